@@ -1,7 +1,6 @@
 open BinNums
 open BinPosDef
 open Datatypes
-open Nat
 
 module Pos :
  sig
@@ -35,10 +34,6 @@ module Pos :
   val compare : positive -> positive -> comparison
 
   val eqb : positive -> positive -> bool
-
-  val iter_op : ('a1 -> 'a1 -> 'a1) -> positive -> 'a1 -> 'a1
-
-  val to_nat : positive -> nat
 
   val eq_dec : positive -> positive -> bool
  end
